@@ -404,6 +404,8 @@ func (i InfixExpression) PrettyPrint(out *PrintState) *PrintState {
 			out.ExpressionPrecedence = oldPrecedence
 			return out
 		}
+	} else if i.Right == nil {
+		out.Print(" ", i.Literal()) // a[n :]
 	} else {
 		out.Print(" ", i.Literal(), " ")
 	}
@@ -431,7 +433,7 @@ func (i InfixExpression) printRightAfterSign(out *PrintState) {
 func (i InfixExpression) printRight(out *PrintState) {
 	switch right := i.Right.(type) {
 	case nil:
-		out.Print("nil")
+		// a[n:] - nothing to print: "nil" would read back as a (non integer) nil literal, not as "to the end".
 	case *InfixExpression:
 		// Infix operators are left associative: a right operand of the same precedence was
 		// parenthesized in the source (a-(b-c)) and must stay so, or it would re-parse as (a-b)-c.
